@@ -256,7 +256,7 @@ var effGuardOnce sync.Once
 func effectiveGuards(t *testing.T) {
 	effGuardOnce.Do(func() {
 		var why string
-		for attempt := 0; attempt < 3; attempt++ {
+		for attempt := 0; attempt < 5; attempt++ { // a loaded machine may let the 3 s plaintext probe time out
 			why = ""
 			c := baseline(false)
 			c.SQL, c.Crypto, c.TLS = "implicit", "implicit", "disabled"
